@@ -116,7 +116,7 @@ def contents():
         st.sampled_from(["hello\n", "x" * 4096, "[Trash Info]\nPath=/x\n"]))
 
 
-KINDS = ["file", "empty", "dir", "tree", "link_file", "link_dir", "link_dangling", "link_link"]
+KINDS = ["file", "empty", "dir", "tree", "link_file", "link_dir", "link_dangling", "link_link", "fifo"]
 
 
 @st.composite
@@ -164,6 +164,8 @@ def entry_nodes(draw, path, kind, link_targets=None, big=False):
         return nodes
     if kind.startswith("link"):
         return [m({"p": path, "t": "l", "to": draw(st.sampled_from(link_targets))})]
+    if kind == "fifo":
+        return [m({"p": path, "t": "p", "m": draw(st.sampled_from([0o644, 0o600, 0o666]))})]
     raise ValueError(kind)
 
 
